@@ -75,7 +75,7 @@ Lemma spring_power_balance k x0 (X1 X2:Transform R) V1 V2 st1 st2 :
 Proof. intros Hd P. subst P. unfold spring_F. rewrite tp_pair_power. unfold spring_f.
   eapply is_derive_ext. { intros t. symmetry. apply spring_PE_path. }
   revert Hd. destruct (tp_r ROps X1 st1 X2 st2) as [[a b] c]. destruct (vrel X1 V1 st1 X2 V2 st2) as [[a' b'] c'].
-  intros Hd. cbv beta iota. replace (- v3_dot ROps _ _) with (k * (sqrt (a*a+b*b+c*c) - x0) / sqrt (a*a+b*b+c*c) * (a*a' + b*b' + c*c')).
+  intros Hd. cbv beta iota. replace (- - v3_dot ROps _ _) with (k * (sqrt (a*a+b*b+c*c) - x0) / sqrt (a*a+b*b+c*c) * (a*a' + b*b' + c*c')).
   - apply spring_scalar_jet. revert Hd. vunf. auto.
   - vunf. unfold Rdiv. ring. Qed.
 
@@ -94,3 +94,220 @@ Lemma damper_no_damping (X1 X2:Transform R) V1 V2 st1 st2 :
   let P := damper_F ROps 0 X1 V1 st1 X2 V2 st2 in
   sv_dot ROps (fst P) V1 + sv_dot ROps (snd P) V2 = 0.
 Proof. cbv zeta. rewrite damper_power. ring. Qed.
+
+(** ** elements that report PE = 0 and are energy sources (DESIGN 7.17): their power can be positive,
+    so "d/dt PE = - power + dissipation with dissipation <= 0" is false for them: with PE = 0 the
+    dissipation term is the power itself. *)
+Lemma tpconst_power f (X1 X2:Transform R) V1 V2 st1 st2 :
+  let P := tpconst_F ROps f X1 st1 X2 st2 in
+  sv_dot ROps (fst P) V1 + sv_dot ROps (snd P) V2 = v3_dot ROps (tpconst_f ROps f X1 st1 X2 st2) (vrel X1 V1 st1 X2 V2 st2).
+Proof. cbv zeta. unfold tpconst_F. generalize (tpconst_f ROps f X1 st1 X2 st2). intros g. dv. unfold vrel. munf. match goal with |- ?a = ?b => change (@eq R a b) end. ring. Qed.
+Definition Xat (p:Vec3 R) : Transform R := (m33_id ROps, p).
+Definition O3 : Vec3 R := (0,0,0).
+Definition Vlin (v:Vec3 R) : SpatialVec R := (O3, v).
+Lemma sqrt_eq_1 x : x = 1 -> sqrt x = 1.
+Proof. intros ->. apply sqrt_1. Qed.
+(** witness: body 2 at (1,0,0) moving away from Ground's origin at unit speed, force 1: power +1, PE stays 0 *)
+Lemma tpconst_dissipation_sign_refuted : exists f X1 V1 st1 X2 V2 st2,
+  let P := tpconst_F ROps f X1 st1 X2 st2 in
+  snd (ev_tpconst ROps [X1;X2] 0 0 1 st1 st2 f) = 0 /\
+  (forall t, snd (ev_tpconst ROps [pose_path X1 V1 t; pose_path X2 V2 t] 0 0 1 st1 st2 f) = 0) /\
+  0 < sv_dot ROps (fst P) V1 + sv_dot ROps (snd P) V2.
+Proof. exists 1, (Xat O3), (Vlin O3), O3, (Xat (1,0,0)), (Vlin (1,0,0)), O3. cbv zeta. split; [reflexivity|]. split; [reflexivity|].
+  rewrite tpconst_power. unfold vrel, tpconst_f, Xat, Vlin, O3. munf.
+  replace (sqrt _) with 1. lra. symmetry. apply sqrt_eq_1. ring. Qed.
+
+Lemma constforce_power (X:Transform R) V st f :
+  sv_dot ROps (constforce_F ROps X st f) V = v3_dot ROps f (st_vel ROps X V st).
+Proof. dv. munf. ring. Qed.
+Lemma constforce_dissipation_sign_refuted : exists X V st f,
+  (forall t, snd (ev_constforce ROps [pose_path X V t] 0 0 st f) = 0) /\ 0 < sv_dot ROps (constforce_F ROps X st f) V.
+Proof. exists (Xat O3), (Vlin (1,0,0)), O3, (1,0,0). split; [reflexivity|]. rewrite constforce_power. unfold Xat, Vlin, O3. munf. lra. Qed.
+Lemma consttorque_dissipation_sign_refuted : exists (X:Transform R) V tq,
+  (forall t, snd (ev_consttorque ROps [pose_path X V t] 0 0 tq) = 0) /\ 0 < sv_dot ROps (consttorque_F ROps tq) V.
+Proof. exists (Xat O3), ((1,0,0),O3), (1,0,0). split; [reflexivity|]. unfold O3. munf. lra. Qed.
+(** MobilityConstantForce: the reported PE is 0 whatever the coordinate value, the power f u can be positive *)
+Lemma mconst_dissipation_sign_refuted : exists f u : R,
+  snd (ev_mconst ROps 1 1 0 f) = 0 /\ 0 < f * u.
+Proof. exists 1, 1. split; [reflexivity|]. lra. Qed.
+
+(** ** mobility elements, on coordinates with qdot = u (their documented domain): q moves as q + t u *)
+Lemma mspring_power_balance k q0 q u :
+  is_derive (fun t => mspring_PE ROps k q0 (q + t*u)) 0 (- (mspring_f ROps k q0 q * u)).
+Proof. unfold mspring_PE, mspring_f, two. vunf. auto_derive; auto. rewrite ?Rmult_0_l, ?Rplus_0_r. field. Qed.
+(** generalized force = - dPE/dq *)
+Lemma mspring_force_is_minus_gradient k q0 q :
+  is_derive (fun x => mspring_PE ROps k q0 x) q (- mspring_f ROps k q0 q).
+Proof. unfold mspring_PE, mspring_f, two. vunf. auto_derive; auto. field. Qed.
+Lemma mdamper_dissipates c u : 0 <= c -> mdamper_f ROps c u * u <= 0.
+Proof. intros H. unfold mdamper_f. vunf. generalize (Rle_0_sqr u). unfold Rsqr. nra. Qed.
+Lemma mdamper_no_damping u : mdamper_f ROps 0 u * u = 0.
+Proof. unfold mdamper_f. vunf. ring. Qed.
+
+(** GlobalDamper: power = - c |u|^2 *)
+Lemma globaldamper_power c us : dot_s ROps (globaldamper_f ROps c us) us = - c * dot_s ROps us us.
+Proof. induction us as [|u us IH]; cbn [globaldamper_f map dot_s]. vunf; ring.
+  unfold globaldamper_f in IH. rewrite IH. vunf. ring. Qed.
+Lemma dot_s_nonneg us : 0 <= dot_s ROps us us.
+Proof. induction us as [|u us IH]; cbn [dot_s]. vunf; lra. set (d := dot_s ROps us us) in *. vunf. generalize (Rle_0_sqr u). unfold Rsqr. lra. Qed.
+Lemma globaldamper_dissipates c us : 0 <= c -> dot_s ROps (globaldamper_f ROps c us) us <= 0.
+Proof. intros H. rewrite globaldamper_power. generalize (dot_s_nonneg us). nra. Qed.
+
+(** ** UniformGravity and Gravity: PE is affine along rigid motions, d/dt PE = - power, no dissipation *)
+Definition gbody_path (b:gbody (T:=R)) (V:SpatialVec R) (t:R) : gbody (T:=R) :=
+  let '(m,com,X,ex) := b in (m,com,pose_path X V t,ex).
+Definition gbody_power (gvec:Vec3 R) (bV:gbody (T:=R) * SpatialVec R) : R := sv_dot ROps (grav_body_F ROps gvec (fst bV)) (snd bV).
+Fixpoint gpower (gvec:Vec3 R) (bsV:list (gbody (T:=R) * SpatialVec R)) : R :=
+  match bsV with [] => 0 | bV :: r => gbody_power gvec bV + gpower gvec r end.
+Definition gpath (t:R) (bV:gbody (T:=R) * SpatialVec R) := gbody_path (fst bV) (snd bV) t.
+
+Lemma grav_body_PE_path gvec zoff pe b V t :
+  grav_body_PE ROps gvec zoff pe (gbody_path b V t) = grav_body_PE ROps gvec zoff pe b - t * gbody_power gvec (b,V).
+Proof. destruct b as [[[m com] X] ex]. unfold gbody_power, gbody_path, grav_body_PE, grav_body_F. cbn [fst snd].
+  destruct ex. { unfold sv_zero. vunf. dv. ring. }
+  rewrite pt_path. dv. unfold vaff. munf. ring. Qed.
+Lemma grav_body_PE_shift gvec zoff pe c b : grav_body_PE ROps gvec zoff (pe + c) b = grav_body_PE ROps gvec zoff pe b + c.
+Proof. destruct b as [[[m com] X] ex]. unfold grav_body_PE. destruct ex; vunf; ring. Qed.
+Lemma grav_fold_shift gvec zoff bs : forall pe c,
+  fold_left (grav_body_PE ROps gvec zoff) bs (pe + c) = fold_left (grav_body_PE ROps gvec zoff) bs pe + c.
+Proof. induction bs as [|b bs IH]; intros pe c; cbn [fold_left]. reflexivity. rewrite grav_body_PE_shift. apply IH. Qed.
+Lemma grav_PE_path_gen gvec zoff t bsV : forall pe,
+  fold_left (grav_body_PE ROps gvec zoff) (map (gpath t) bsV) pe =
+  fold_left (grav_body_PE ROps gvec zoff) (map fst bsV) pe - t * gpower gvec bsV.
+Proof. induction bsV as [|[b V] r IH]; intros pe; cbn [map fold_left gpower fst snd]. ring.
+  change (gpath t (b,V)) with (gbody_path b V t). rewrite grav_body_PE_path.
+  replace (grav_body_PE ROps gvec zoff pe b - t * gbody_power gvec (b, V)) with (grav_body_PE ROps gvec zoff pe b + (- (t * gbody_power gvec (b, V)))) by ring.
+  rewrite grav_fold_shift. rewrite IH. ring. Qed.
+Lemma grav_power_tail gvec bsV :
+  power ROps (map (grav_body_F ROps gvec) (map fst bsV)) (map snd bsV) = gpower gvec bsV.
+Proof. induction bsV as [|[b V] r IH]; cbn [map power gpower fst snd]. reflexivity.
+  rewrite IH. unfold gbody_power. cbn [fst snd]. reflexivity. Qed.
+Lemma grav_power_is_gpower gvec V0 bsV :
+  power ROps (grav_F ROps gvec (map fst bsV)) (V0 :: map snd bsV) = gpower gvec bsV.
+Proof. unfold grav_F. cbn [power]. rewrite grav_power_tail.
+  replace (sv_dot ROps (sv_zero ROps) V0) with 0 by (dv; unfold sv_zero; vunf; ring). vunf. ring. Qed.
+(** bodies 1..n-1 given with their velocities, Ground's velocity V0 arbitrary (its force is zero) *)
+Lemma gravity_power_balance gvec zoff V0 (bsV:list (gbody (T:=R) * SpatialVec R)) :
+  is_derive (fun t => grav_PE ROps gvec zoff (map (gpath t) bsV)) 0
+            (- power ROps (grav_F ROps gvec (map fst bsV)) (V0 :: map snd bsV)).
+Proof. rewrite grav_power_is_gpower. unfold grav_PE.
+  eapply is_derive_ext. { intros t. symmetry. apply grav_PE_path_gen. }
+  auto_derive; auto. ring. Qed.
+(** the two gravity elements are instances *)
+Lemma uniformgravity_power_balance nu g zeroHeight V0 (bsV:list (gbody (T:=R) * SpatialVec R)) :
+  is_derive (fun t => snd (ev_uniformgravity ROps nu g zeroHeight (map (gpath t) bsV))) 0
+            (- power ROps (fst (fst (ev_uniformgravity ROps nu g zeroHeight (map fst bsV)))) (V0 :: map snd bsV)).
+Proof. apply gravity_power_balance. Qed.
+Lemma gravity_element_power_balance nu d g z V0 (bsV:list (gbody (T:=R) * SpatialVec R)) :
+  is_derive (fun t => snd (ev_gravity ROps nu d g z (map (gpath t) bsV))) 0
+            (- power ROps (fst (fst (ev_gravity ROps nu d g z (map fst bsV)))) (V0 :: map snd bsV)).
+Proof. apply gravity_power_balance. Qed.
+
+(** ** MobilityLinearStop, per open region of the coordinate (qdot = u) *)
+Lemma neqb_refl x : neqb ROps x x = true.
+Proof. unfold neqb. cbn [nleb ROps]. rewrite (proj2 (Rleb_true x x)) by lra. reflexivity. Qed.
+Lemma neqb_neq x y : x <> y -> neqb ROps x y = false.
+Proof. intros H. unfold neqb. cbn [nleb ROps]. destruct (Rle_dec x y) as [A|A].
+  - rewrite (proj2 (Rleb_true x y) A). rewrite (proj2 (Rleb_false y x)) by lra. reflexivity.
+  - rewrite (proj2 (Rleb_false x y)) by lra. reflexivity. Qed.
+Lemma ltb_t x y : x < y -> nltb ROps x y = true.   Proof. intros; cbn [nltb ROps]; apply Rltb_true; auto. Qed.
+Lemma ltb_f x y : y <= x -> nltb ROps x y = false. Proof. intros; cbn [nltb ROps]; apply Rltb_false; auto. Qed.
+
+Lemma locally_lt_affine a q u : a < q -> locally 0 (fun t => a < q + t*u).
+Proof. intros H. assert (He : 0 < (q-a)/(Rabs u + 1)).
+  { apply Rdiv_lt_0_compat. lra. generalize (Rabs_pos u); lra. }
+  exists (mkposreal _ He). intros t Ht. unfold ball in Ht. cbn in Ht. unfold AbsRing_ball, abs, minus, plus, opp in Ht. cbn in Ht.
+  rewrite Ropp_0, Rplus_0_r in Ht.
+  assert (B : Rabs (t*u) < q - a).
+  { rewrite Rabs_mult. generalize (Rabs_pos u) (Rabs_pos t); intros.
+    apply Rle_lt_trans with (Rabs t * (Rabs u + 1)). nra.
+    apply Rlt_le_trans with ((q-a)/(Rabs u + 1) * (Rabs u + 1)). apply Rmult_lt_compat_r; lra.
+    right. field. lra. }
+  generalize (Rle_abs (- (t*u))). rewrite Rabs_Ropp. lra. Qed.
+Lemma locally_gt_affine a q u : q < a -> locally 0 (fun t => q + t*u < a).
+Proof. intros H. generalize (locally_lt_affine (-a) (-q) (-u) ltac:(lra)). apply filter_imp. intros t. lra. Qed.
+
+Lemma mstop_PE_upper k qlo qhi q : k <> 0 -> qhi < q -> mstop_PE ROps k qlo qhi q = k * (q-qhi) * (q-qhi) / (1+1).
+Proof. intros Hk H. unfold mstop_PE. rewrite neqb_neq by auto. rewrite ltb_t by auto. reflexivity. Qed.
+Lemma mstop_PE_lower k qlo qhi q : k <> 0 -> qlo <= qhi -> q < qlo -> mstop_PE ROps k qlo qhi q = k * (q-qlo) * (q-qlo) / (1+1).
+Proof. intros Hk Hb H. unfold mstop_PE. rewrite neqb_neq by auto. rewrite ltb_f by lra. rewrite ltb_t by auto. reflexivity. Qed.
+Lemma mstop_PE_inside k qlo qhi q : qlo <= q -> q <= qhi -> mstop_PE ROps k qlo qhi q = 0.
+Proof. intros A B. unfold mstop_PE. destruct (neqb ROps k (n0 ROps)); auto. rewrite !ltb_f by lra. reflexivity. Qed.
+Lemma mstop_PE_k0 qlo qhi q : mstop_PE ROps 0 qlo qhi q = 0.
+Proof. unfold mstop_PE. cbn [n0 ROps]. rewrite neqb_refl. reflexivity. Qed.
+
+(** dissipation term of the stop: what is left of the power after the change of PE is accounted for *)
+Definition mstop_dPE (k qlo qhi q u:R) : R :=
+  if Rlt_dec qhi q then k*(q-qhi)*u else if Rlt_dec q qlo then k*(q-qlo)*u else 0.
+Definition mstop_diss (k d qlo qhi q u:R) : R := mstop_f ROps k d qlo qhi q u * u + mstop_dPE k qlo qhi q u.
+
+Lemma mstop_dPE_is_derivative k qlo qhi q u : 0 <= k -> qlo <= qhi -> q <> qlo -> q <> qhi ->
+  is_derive (fun t => mstop_PE ROps k qlo qhi (q + t*u)) 0 (mstop_dPE k qlo qhi q u).
+Proof. intros Hk Hb N1 N2. unfold mstop_dPE.
+  destruct (Req_dec k 0) as [->|K0].
+  { eapply is_derive_ext. { intros t. symmetry. apply mstop_PE_k0. }
+    replace (if Rlt_dec qhi q then _ else _) with 0 by (destruct (Rlt_dec qhi q); destruct (Rlt_dec q qlo); ring). auto_derive; auto; try ring. }
+  destruct (Rlt_dec qhi q) as [A|A].
+  - eapply is_derive_ext_loc.
+    { generalize (locally_lt_affine qhi q u A). apply filter_imp. intros t Ht. symmetry. apply mstop_PE_upper; auto. }
+    auto_derive; auto. rewrite ?Rmult_0_l, ?Rplus_0_r. field.
+  - destruct (Rlt_dec q qlo) as [B|B].
+    + eapply is_derive_ext_loc.
+      { generalize (locally_gt_affine qlo q u B). apply filter_imp. intros t Ht. symmetry. apply mstop_PE_lower; auto. }
+      auto_derive; auto. rewrite ?Rmult_0_l, ?Rplus_0_r. field.
+    + assert (A' : q < qhi) by lra. assert (B' : qlo < q) by lra.
+      eapply is_derive_ext_loc.
+      { generalize (filter_and _ _ (locally_lt_affine qlo q u B') (locally_gt_affine qhi q u A')). apply filter_imp.
+        intros t [H1 H2]. symmetry. apply mstop_PE_inside; lra. }
+      auto_derive; auto; try ring. Qed.
+
+Lemma mstop_diss_nonpos k d qlo qhi q u : 0 <= k -> 0 <= d -> qlo <= qhi -> mstop_diss k d qlo qhi q u <= 0.
+Proof. intros Hk Hd Hb. unfold mstop_diss, mstop_dPE, mstop_f.
+  destruct (Req_dec k 0) as [->|K0].
+  { cbn [n0 ROps]. rewrite neqb_refl. destruct (Rlt_dec qhi q); destruct (Rlt_dec q qlo); lra. }
+  rewrite (neqb_neq k) by auto.
+  set (qd := if neqb ROps d (n0 ROps) then n0 ROps else u).
+  assert (Qd : d * qd = d * u).
+  { subst qd. destruct (Req_dec d 0) as [->|D0]. cbn [n0 ROps]; rewrite neqb_refl; cbn [n0 ROps]; ring. rewrite neqb_neq by auto. reflexivity. }
+  destruct (Rlt_dec qhi q) as [A|A].
+  - rewrite ltb_t by auto. unfold nmin. vunf. fold qd. rewrite Qd.
+    destruct (Rlt_dec (- (k * (q - qhi) * (1 + d * u))) 0) as [C|C].
+    + rewrite (proj2 (Rltb_true _ _) C). assert (0 <= k * (q-qhi) * d * (u*u)) by (apply Rmult_le_pos; [apply Rmult_le_pos; [apply Rmult_le_pos|]|]; nra). nra.
+    + rewrite (proj2 (Rltb_false _ _)) by lra. assert (P : 0 < k*(q-qhi)) by nra.
+      assert (1 + d*u <= 0) by nra. assert (u <= 0) by nra. nra.
+  - rewrite ltb_f by lra. destruct (Rlt_dec q qlo) as [B|B].
+    + rewrite ltb_t by auto. unfold nmax. vunf. fold qd. rewrite Qd.
+      destruct (Rlt_dec 0 (- (k * (q - qlo) * (1 - d * u)))) as [C|C].
+      * rewrite (proj2 (Rltb_true _ _) C). assert (0 <= k * (qlo-q) * d * (u*u)) by (apply Rmult_le_pos; [apply Rmult_le_pos; [apply Rmult_le_pos|]|]; nra). nra.
+      * rewrite (proj2 (Rltb_false _ _)) by lra. assert (P : 0 < k*(qlo-q)) by nra.
+        assert (1 - d*u <= 0) by nra. assert (0 <= u) by nra. nra.
+    + rewrite ltb_f by lra. vunf. lra. Qed.
+
+Lemma mstop_diss_zero_without_damping k qlo qhi q u : 0 <= k -> qlo <= qhi -> mstop_diss k 0 qlo qhi q u = 0.
+Proof. intros Hk Hb. unfold mstop_diss, mstop_dPE, mstop_f.
+  destruct (Req_dec k 0) as [->|K0].
+  { cbn [n0 ROps]. rewrite neqb_refl. destruct (Rlt_dec qhi q); destruct (Rlt_dec q qlo); lra. }
+  rewrite (neqb_neq k) by auto. cbn [n0 ROps]. rewrite (neqb_refl 0).
+  destruct (Rlt_dec qhi q) as [A|A].
+  - rewrite ltb_t by auto. unfold nmin. vunf. assert (P : 0 < k*(q-qhi)) by nra.
+    rewrite (proj2 (Rltb_true _ _)) by nra. ring.
+  - rewrite ltb_f by lra. destruct (Rlt_dec q qlo) as [B|B].
+    + rewrite ltb_t by auto. unfold nmax. vunf. assert (P : 0 < k*(qlo-q)) by nra.
+      rewrite (proj2 (Rltb_true _ _)) by nra. ring.
+    + rewrite ltb_f by lra. vunf. ring. Qed.
+
+(** the statement of the property for the stop, away from the two switching points q = qLow, q = qHigh *)
+Lemma mstop_power_balance_partial k d qlo qhi q u : 0 <= k -> 0 <= d -> qlo <= qhi -> q <> qlo -> q <> qhi ->
+  is_derive (fun t => mstop_PE ROps k qlo qhi (q + t*u)) 0 (- (mstop_f ROps k d qlo qhi q u * u) + mstop_diss k d qlo qhi q u)
+  /\ mstop_diss k d qlo qhi q u <= 0 /\ (d = 0 -> mstop_diss k d qlo qhi q u = 0).
+Proof. intros Hk Hd Hb N1 N2. split; [|split].
+  - replace (- (mstop_f ROps k d qlo qhi q u * u) + mstop_diss k d qlo qhi q u) with (mstop_dPE k qlo qhi q u) by (unfold mstop_diss; ring).
+    apply mstop_dPE_is_derivative; auto.
+  - apply mstop_diss_nonpos; auto.
+  - intros ->. apply mstop_diss_zero_without_damping; auto. Qed.
+
+(** non-vacuity *)
+Example spring_hyp_satisfiable : 0 < v3_normSqr ROps (tp_r ROps (Xat O3) O3 (Xat (3,4,0)) O3).
+Proof. unfold Xat, O3. munf. lra. Qed.
+Example mstop_hyp_satisfiable : 0 <= 50 /\ 0 <= 1/2 /\ -1 <= 1 /\ 2 <> -1 /\ 2 <> 1 /\ mstop_dPE 50 (-1) 1 2 3 = 150.
+Proof. repeat split; try lra. unfold mstop_dPE. destruct (Rlt_dec 1 2); lra. Qed.
